@@ -344,7 +344,14 @@ static int modeReplay() {
     std::string line;
     long long cases = 0, fails = 0, crashes = 0;
     while (std::getline(std::cin, line)) {
-        if (line.size() > 1 && line[0] == '"' && line[1] == '{') line = jparse(line).s;   // TLC's PrintT quotes the JSON text
+        if (line.size() > 1 && line[0] == '"' && line[1] == '{') {   // TLC's PrintT quotes the JSON text
+            try { line = jparse(line).s; }
+            catch (const std::exception &e) {
+                std::cerr << "harness: garbled input line (" << e.what() << ") len=" << line.size() << " head=" << line.substr(0, 200)
+                          << " tail=" << line.substr(line.size() > 300 ? line.size() - 300 : 0) << std::endl;
+                return 3;
+            }
+        }
         if (line.empty() || line[0] != '{') continue;
         ++cases;
         pid_t pid = fork();
